@@ -96,4 +96,9 @@ def mergeChain (fields : List String) : List Project → Project
 def loadExtends (fields : List String) (dir : String) (base child : Project) : Project :=
   mergeChain fields [base.map fun (n, p) => (n, resolveProc dir p), child]
 
+/-- an extends chain `child extends b_n extends … extends b_1`: every base is inserted before its
+    child with its working directories resolved against its own directory -/
+def loadChain (fields : List String) (bases : List (String × Project)) (child : Project) : Project :=
+  mergeChain fields (bases.map (fun (dir, b) => b.map fun (n, p) => (n, resolveProc dir p)) ++ [child])
+
 end PC.Merge
